@@ -23,8 +23,8 @@ ASSUMPTIONS = [
     "for failures raised as C++ exceptions only 'status 1 and an error line' is required, not a wording",
 ]
 TIERS = {
-    "quick": {"cases": 1500, "flavours": ("asan",), "cap_s": 600},
-    "thorough": {"cases": 60000, "flavours": ("asan",), "cap_s": 3 * 3600},
+    "quick": {"cases": 8000, "flavours": ("asan",), "cap_s": 600},
+    "thorough": {"cases": 300000, "flavours": ("asan",), "cap_s": 3 * 3600},
 }
 SHRINK_LISTS = ["stack", "debug"]
 DEBUG_AREAS = ["sighash", "signing", "segwit", "taproot"]
@@ -144,12 +144,27 @@ def world_for(scn, cfg, stdin_fault=None, verbose=False):
     return w
 
 
+def long_line(scn, cfg):
+    """the script travels on stdin as one line of 1024 characters or more"""
+    return cfg["in"] != "tty" and scn.get("script") is not None and len(scn["script"]) + 2 >= 1023
+
+
 def expected_stdout(stack_items):
     return "".join(it + "\n" for it in stack_items)
 
 
 def evaluate(ctx, scn):
     ev = Eval()
+    _evaluate(ctx, scn, ev)
+    if long_line(scn, scn["cfg"]) or long_line(scn, scn["cfg2"]):
+        # one root cause, one class: whatever differs, it differs because the line was cut
+        for v in ev.violations:
+            if v.clause in ("result-differs", "config-dependence"):
+                v.site = "stdin-line>=1024"
+    return ev
+
+
+def _evaluate(ctx, scn, ev):
     ref = refmod.reference(ctx, scn, ev)
     ev.counters["term:" + ref.run.classify()[0]] += 1
     cfg = scn["cfg"]
